@@ -24,6 +24,7 @@
 //             listed moves, '-' otherwise)   |  ERR text
 //   request   C CLASS FEN         number of legal moves: "C <n>"
 //   request   D CLASS FEN         distance to mate only: "D <dtm>"
+//   request   V CLASS FEN | m1 m2 ..   walk a line: "V <dtm> ; <uci> ok <dtm> <clock> <nmoves> ; ..." (or "<uci> illegal")
 //   request   B CLASS n FEN       does the side to move mate (DTM-won) / is it mated (DTM-lost)
 //                                 within n plies under the rule: "B 1" | "B 0" | "B ?"
 //   values    <dtm>: W<k> (side to move mates in k plies)  L<k> (is mated in k plies)  D
@@ -416,11 +417,32 @@ static int run(const std::string& dir) {
         fen.erase(0, fen.find_first_not_of(' '));
         const ClassDump* d = getDump(cls);
         Board b; std::string err;
-        if (op != "O" && op != "B" && op != "C" && op != "D") { std::cout << "ERR unknown request\n"; std::cout.flush(); continue; }
+        if (op != "O" && op != "B" && op != "C" && op != "D" && op != "V") { std::cout << "ERR unknown request\n"; std::cout.flush(); continue; }
         if (!d) { std::cout << "ERR no dump for class " << cls << "\n"; std::cout.flush(); continue; }
         if (!parseFen(fen, b, err)) { std::cout << "ERR " << err << "\n"; std::cout.flush(); continue; }
         if (kingSq(b, true) < 0 || kingSq(b, false) < 0 || indexOf(*d, b) < 0) {
             std::cout << "ERR position is not of class " << cls << "\n"; std::cout.flush(); continue;
+        }
+        if (op == "V") {            // walk a line of moves (after '|'): per ply "uci legal dtm clock"
+            std::ostringstream os;
+            os << "V " << show(dtmOf(*d, b));
+            std::istringstream ms(wanted);
+            std::string u;
+            Board cur = b;
+            while (ms >> u) {
+                std::vector<Mv> lm;
+                legalMoves(cur, lm);
+                bool found = false;
+                for (const Mv& m : lm)
+                    if (sqName(m.from) + sqName(m.to) == u) { cur = apply(cur, m); found = true; break; }
+                if (!found) { os << " ; " << u << " illegal"; break; }
+                std::vector<Mv> nx;
+                legalMoves(cur, nx);
+                os << " ; " << u << " ok " << show(dtmOf(*d, cur)) << ' ' << cur.hmc << ' ' << nx.size();
+            }
+            std::cout << os.str() << "\n";
+            std::cout.flush();
+            continue;
         }
         if (op == "D") {            // distance to mate only
             bool ill = attacked(b, kingSq(b, !b.wtm), b.wtm);
